@@ -2,7 +2,7 @@ package sim
 
 import (
 	"sort"
-		"testing/synctest"
+	"testing/synctest"
 	"time"
 	"unsafe"
 )
@@ -48,7 +48,7 @@ type Sched struct {
 	c *Ctx
 
 	parkCh chan parkEv
-	sync   int64       // address used for task -> scheduler happens-before
+	sync   int64 // address used for task -> scheduler happens-before
 
 	parked []*Task
 	all    []*Task
@@ -59,15 +59,15 @@ type Sched struct {
 	start        time.Time
 
 	// configuration (set before Run)
-	MaxSteps   int
-	Horizon    time.Duration   // simulated time after which the run ends
-	Stalls     []time.Duration // non-empty: the tape may stall runnable tasks and let time pass
-	StallW     int             // weight of the stall option against 4 per runnable task
-	YieldMask  int
-	OnIdle     func() // called on the root goroutine whenever nothing is runnable, before time advances
-	OnStep     func() // called on the root goroutine before every decision (everything is blocked)
-	StopWhen   func() bool
-	OnRelease  func(task, site string) // called on the root goroutine just before a task is resumed
+	MaxSteps  int
+	Horizon   time.Duration   // simulated time after which the run ends
+	Stalls    []time.Duration // non-empty: the tape may stall runnable tasks and let time pass
+	StallW    int             // weight of the stall option against 4 per runnable task
+	YieldMask int
+	OnIdle    func() // called on the root goroutine whenever nothing is runnable, before time advances
+	OnStep    func() // called on the root goroutine before every decision (everything is blocked)
+	StopWhen  func() bool
+	OnRelease func(task, site string) // called on the root goroutine just before a task is resumed
 
 	// results
 	Trace     []StepRec
